@@ -356,6 +356,9 @@ pub struct Layout {
     /// parenthesise operand/operator pairs whose relative precedence is a recorded deviation of
     /// the parser from the OpenQASM table (so that both readings agree)
     pub paren_deviating: bool,
+    /// percent chance of a trailing comma after the last element of an expression list (call
+    /// arguments, gate parameters, index lists, set elements, case values) - legal in OpenQASM 3
+    pub trailing_commas: u64,
     pub seed: u64,
 }
 
@@ -366,6 +369,7 @@ impl Layout {
             redundant_parens: 0,
             paren_assign_rhs: false,
             paren_deviating: false,
+            trailing_commas: 0,
             seed: 0,
         }
     }
@@ -406,6 +410,8 @@ pub struct Printer<'a> {
     /// > 0 while printing a position where redundant parentheses are not legal
     /// (qubit operands, assignment targets, alias right-hand sides)
     no_extra: u32,
+    /// set while printing the elements of a `{ … }` list
+    no_trailing_comma: bool,
 }
 
 fn identlike(c: char) -> bool {
@@ -422,6 +428,7 @@ impl<'a> Printer<'a> {
             r: Rng::new(lay.seed ^ 0x5151),
             pending_start: None,
             no_extra: 0,
+            no_trailing_comma: false,
         }
     }
 
@@ -606,6 +613,17 @@ impl<'a> Printer<'a> {
             }
             self.expr(a, 0);
         }
+        if !args.is_empty() && !self.no_trailing_comma && self.lay.trailing_commas > 0 && self.r.below(100) < self.lay.trailing_commas {
+            self.tok(",");
+        }
+    }
+
+    /// A list inside `{ }`: this front end rejects a trailing comma there ("expected value
+    /// parameter"); the property's list of constructs does not mention it - not demanded.
+    fn set_elements(&mut self, es: &[E]) {
+        self.no_trailing_comma = true;
+        self.args(es);
+        self.no_trailing_comma = false;
     }
 
     fn index_op(&mut self, ix: &MIndex) {
@@ -614,7 +632,7 @@ impl<'a> Printer<'a> {
             MIndex::List(es) => self.args(es),
             MIndex::Set(es) => {
                 self.tok("{");
-                self.args(es);
+                self.set_elements(es);
                 self.tok("}");
             }
         }
@@ -948,7 +966,7 @@ impl<'a> Printer<'a> {
                     }
                     Iterable::Set(es) => {
                         self.tok("{");
-                        self.args(es);
+                        self.set_elements(es);
                         self.tok("}");
                     }
                     Iterable::Expr(e) => self.bare(e, POSTFIX_PREC),
